@@ -147,8 +147,11 @@ CLAIMS['C20'] = dict(
          'field) and with callees raising whatever their contracts allow, either complete silently or return 23 after exactly one printed '
          'line; no exception escapes; well-formed values reach the constructors in the documented positions. Likewise the readers of '
          '--laplace-load-a/-b (pairing), --skin-effect-conductivity/-resistivity, --insulation-load, --geo-rotate/-translate/-scale and the '
-         'order of application (equal sort keys included), --phi, --theta, --near-field. The numeric stage, frequency options and the '
-         'sweep loop are exercised by the native fuzz only; 7 recorded findings (C20-*).',
+         'order of application (equal sort keys included), --phi, --theta, --near-field. The range test of -f is proved in IEEE-754 semantics (z3 '
+         'FloatingPoint: whatever passes is a finite number in (0, 1e100); nan and inf are rejected). The constructors the load readers call never divide '
+         'by zero at a positive frequency (series RLC, explicit C = 0 included) and only build positive conductivities (units shared with C08). The numeric '
+         'stage, the other frequency options and the sweep loop are exercised by an exhaustive, deterministic native fuzz (1056 argument lists = every option x '
+         'field x bad value); 2 open findings (C20-nonfinite with its 176 members listed literally, C20-taper-assert).',
     note='clause-only claim; argparse axioms; constructor raises clauses as summarised',
     design_ref='DESIGN.md §5 C20')
 CLAIMS['C15'] = dict(
@@ -226,7 +229,8 @@ TECHNIQUE = {
     'C19': _T0 + 'token audit of every report writer over abstract strings; format_float executed on a digit-string abstract domain '
                  '(integer of digits + layout) for every decade of the stated range, obligations in linear integer/real arithmetic',
     'C20': _T0 + 'containment obligations (complete silently, or return 23 after exactly one line, no exception escapes) for every option reader '
-                 'of main() over every field layout with callees raising what their contracts allow; the numeric stage is fuzzed natively (bounded)',
+                 'of main() over every field layout with callees raising what their contracts allow; one guard (the range of -f) in z3\'s IEEE-754 theory instead of '
+                 'real arithmetic; the numeric stage is fuzzed natively (bounded, exhaustive over the generated option x field x value grid)',
 }
 for _p, _t in TECHNIQUE.items():
     if _p in CLAIMS:
